@@ -158,6 +158,11 @@ pub mod sup {
         }
     }
 
+    impl Sym for &'static mut u8 {
+        fn sym() -> Self {
+            Box::leak(Box::new(kani::any::<u8>()))
+        }
+    }
     pub static STATIC_REFS: [&'static u8; 4] = [&STATIC_U8S[3], &STATIC_U8S[2], &STATIC_U8S[1], &STATIC_U8S[0]];
     impl Sym for &'static &'static u8 {
         fn sym() -> Self {
